@@ -18,7 +18,7 @@ Answers: `npu` | `cpu <constraint>` | `raised <constraint> <what>`;  for `doc`:
 `npu` | `cpu <bullet index>` | `raised …` | `silent` (operator not in the report).
 -/
 namespace VelaVerif.Handlers.Constraints
-open VelaVerif VelaVerif.Handlers VelaVerif.Constraints
+open VelaVerif VelaVerif.Handlers VelaVerif.Constraints VelaVerif.Gen.Constraints
 
 def splitOn1 (s : String) (sep : String) : List String := s.splitOn sep
 
@@ -54,7 +54,7 @@ def parseTens (s : String) : Option (Option Tens) :=
     let shape ← parseShape sh
     match dt.splitOn "," with
     | [name, bits, flags, eb] =>
-      some (some { shape, dtype := name, bits := ← parseNat? bits, tflags := ← parseNat? flags,
+      some (some { shape, dtype := toName name, bits := ← parseNat? bits, tflags := ← parseNat? flags,
                    elemBytes := ← parseNat? eb, quant := ← parseQuant q, vals := ← parseVals v, prod := ← parseProd p })
     | _ => none
   | _ => none
@@ -68,15 +68,15 @@ def parseAttrV (s : String) : Option AttrV :=
   else if s.startsWith "i" then (parseInt? rest).map .int
   else if s.startsWith "b" then some (.bool (rest == "1"))
   else if s.startsWith "l" then (parseIntList rest).map .ints
-  else if s.startsWith "s" then some (.str rest)
+  else if s.startsWith "s" then some (.str (toName rest))
   else if s.startsWith "f" then (parseNat? rest).map .flt
   else none
 
-def parseAttrs (s : String) : Option (List (String × AttrV)) :=
+def parseAttrs (s : String) : Option (List (Name × AttrV)) :=
   if s == "-" then some [] else
   (s.splitOn ";").mapM fun kv =>
     match kv.splitOn ":" with
-    | [k, v] => (parseAttrV v).map fun x => (k, x)
+    | [k, v] => (parseAttrV v).map fun x => (toName k, x)
     | _ => none
 
 def field (toks : List String) (k : String) : Option String :=
@@ -88,12 +88,12 @@ def parseDesc (toks : List String) : Option OpDesc := do
   let attrs ← parseAttrs (← field toks "attrs")
   let ins ← parseTensList (← field toks "in")
   let outs ← parseTensList (← field toks "out")
-  some { type := ty, act := if act == "-" then none else some act, attrs, inputs := ins, outputs := outs }
+  some { type := toName ty, act := if act == "-" then none else some (toName act), attrs, inputs := ins, outputs := outs }
 
 def showVerdict : Verdict → String
   | .npu => "npu"
-  | .cpu c => "cpu " ++ (if c.isEmpty then "-" else c)
-  | .raised c w => "raised " ++ c ++ " " ++ w
+  | .cpu c => "cpu " ++ (if c.isEmpty then "-" else ofName c)
+  | .raised c w => "raised " ++ ofName c ++ " " ++ w
 
 def handle : List String → Option String
   | "c16" :: what :: rest =>
@@ -107,9 +107,10 @@ def handle : List String → Option String
       else if what == "docc" then some (Spec.showDocVerdict (Spec.documented Spec.committedReport d))
       else some "err:what"
   | ["c16lists", ty] =>
-    some ("sem=" ++ ",".intercalate (semListed ty) ++ " sup=" ++ ",".intercalate (supListed ty))
+    some ("sem=" ++ ",".intercalate ((semListed (toName ty)).map ofName) ++ " sup=" ++ ",".intercalate ((supListed (toName ty)).map ofName))
   | ["c16report"] => some (Spec.showProblems (Spec.reportProblems Spec.freshReport))
-  | ["c16drift"] => some (Spec.showProblems (Spec.reportDrift Spec.committedReport Spec.freshReport))
+  | ["c16drift"] => some (Spec.showDrift (Spec.reportDrift Spec.committedReport Spec.freshReport))
+  | ["c16knowndrift"] => some (Spec.showDrift Spec.knownDrift)
   | "c16judge" :: pred :: obs :: _ => some (boolStr (Spec.placementOk pred obs))
   | _ => none
 
